@@ -864,6 +864,79 @@ def _serves(g, src, dst, edges, truth, reg, others, other_reg) -> bool:
     return False
 
 
+def _dispatch_lookup(e):
+    """`T[K]` / `T.get(K)` on a local name T -> (T as ast.Name, K); else None."""
+    e = strip_await(e)
+    if isinstance(e, ast.Subscript) and isinstance(e.value, ast.Name) and not isinstance(e.slice, (ast.Slice, ast.Tuple)):
+        return e.value, e.slice
+    m = method_call(e, "get")
+    if m is not None and isinstance(m.func.value, ast.Name) and len(m.args) == 1 and not m.keywords and not isinstance(m.args[0], ast.Starred):
+        return m.func.value, m.args[0]
+    return None
+
+
+_TABLE_READS = ("get", "keys", "values", "items", "copy")
+
+
+def _table_only_read(f, name: str):
+    """None when every occurrence of local `name` in f (nested functions included) is a binding of the whole name or a
+    read that cannot change the mapping (`T[k]` loaded, `T.get/keys/values/items()`, `k in T`, `len(T)`, iteration);
+    else the first other use (a store `T[k] = ..`, `del T[k]`, `T.update(..)`, an alias, an argument of a call: the table
+    analysed at its definition would not be the table the lookup sees)."""
+    for x in ast.walk(f.node):
+        if not (isinstance(x, ast.Name) and x.id == name):
+            continue
+        par = getattr(x, "_parent", None)
+        if not isinstance(x.ctx, ast.Load):
+            if isinstance(x.ctx, ast.Store) and isinstance(par, (ast.Assign, ast.AnnAssign)):
+                continue
+            return par if par is not None else x
+        if isinstance(par, ast.Subscript) and par.value is x and isinstance(par.ctx, ast.Load):
+            continue
+        if isinstance(par, ast.Attribute) and par.attr in _TABLE_READS and isinstance(getattr(par, "_parent", None), ast.Call) and par._parent.func is par:
+            continue
+        if isinstance(par, ast.Compare) and x in par.comparators and all(isinstance(o, (ast.In, ast.NotIn)) for o in par.ops):
+            continue
+        if isinstance(par, ast.Call) and builtin_call(f, par, "len") is not None:
+            continue
+        if isinstance(par, (ast.For, ast.AsyncFor, ast.comprehension)) and par.iter is x:
+            continue
+        return par if par is not None else x
+    return None
+
+
+def _table_rearm(ctx, f, tname, tkey, nid, port_kind, name_kind, is_task_name):
+    """(ok, message) for a re-arm whose receiver is looked up in a local table `T[K]`: K is the consumed task's name, every
+    definition of T that reaches the re-arm is a dict display whose entries pair the size task's name with the size port
+    and the element task's name with the element port (evaluated where the table is built), and both ports have an entry."""
+    T = tname.id
+    ds = rdefs(f, T, nid, use=tname)
+    ctx.require(bool(ds) and all(d.kind == "assign" and d.index is None and d.nid is not None and isinstance(strip_await(d.value), ast.Dict) for d in ds),
+                f"C01.R4: GatherStep.run: re-arm receiver `{T}[{unparse(tkey)}]`: `{T}` is not a dict display on every path to the re-arm (shape not supported)")
+    esc = _table_only_read(f, T)
+    ctx.require(esc is None, f"C01.R4: GatherStep.run: the port table `{T}` is also used in `{unparse(esc) if esc is not None else ''}`"
+                             f" (it may change between its definition and the lookup): shape not supported")
+    if not is_task_name(tkey, nid):
+        return False, f"re-arm reads the port the table `{T}` holds for `{unparse(tkey)}`, not for the consumed task's name"
+    for d in ds:
+        tbl = strip_await(d.value)
+        ctx.require(all(k is not None for k in tbl.keys), f"C01.R4: GatherStep.run: the port table `{T}` unpacks another mapping (`**`): shape not supported")
+        entries = {}
+        for k, v in zip(tbl.keys, tbl.values):
+            nk = name_kind(k, d.nid)
+            ctx.require(nk in ("size", "input"), f"C01.R4: GatherStep.run: key `{unparse(k)}` of the port table `{T}` not understood")
+            entries[nk] = (k, v)  # a repeated key: the last entry wins, as in Python
+        for br, (k, v) in sorted(entries.items()):
+            vk = port_kind(v, d.nid)
+            if vk != br:
+                return False, (f"after a token from the {br} port the step re-arms `{unparse(v)}` ({vk} port; entry `{unparse(k)}` of the table `{T}`): "
+                               f"the {br} port is never read again and the other one is read twice")
+        missing = sorted({"size", "input"} - set(entries))
+        if missing:
+            return False, f"the port table `{T}` has no entry for the {' / '.join(missing)} port: that port cannot be re-armed (KeyError)"
+    return True, ""
+
+
 def r4(ctx):
     p = ctx.prog
     require_members(ctx, GATHER, ["run", "_gather", "get_size_port", "get_input_port", "_get_input_port_name"], ["token_map", "size_map", "depth"])
@@ -1093,6 +1166,19 @@ def r4(ctx):
             need_all |= need
             if ok and not (need and cover >= need):
                 ok, msg = False, f"re-armed port is only assigned in the {sorted(cover)} branch"
+        elif (tbl := _dispatch_lookup(port)) is not None:
+            # a lookup table (dispatch dict) keyed by the task name: `ports_by_task[task_name].get(...)` with
+            # `ports_by_task = {'__size__': size_port, port_name: input_port}`; every entry pairs a task name with the
+            # port that task reads (the same pairing the initial tasks are held to), the table is indexed by the consumed
+            # task's name, it has an entry for both ports and nothing but lookups is ever done with it
+            tname, tkey = tbl
+            ok, msg = _table_rearm(ctx, f, tname, tkey, nid, port_kind, name_kind, is_task_name)
+            if any(v for _t, _k, v in arrival) and any(not v for _t, _k, v in arrival):
+                by_local = True
+                rn_ = set(g.node_containing(c))
+                need_all |= {br for br in ("size", "input")
+                             if _serves(g, None, rn_, arrival, br == "size", {"size": size_reg, "input": input_reg}[br], (),
+                                        input_reg if br == "size" else size_reg)}
         else:
             ctx.require(False, f"C01.R4: GatherStep.run: re-arm receiver `{unparse(port)}` not understood")
         ctx.ob("R4", "run: each arrival branch re-arms the port it consumed", ok, func=f, node=c, instance="run:rearm:port", message=msg)
@@ -1458,6 +1544,21 @@ _IN_ARM = ("                    if logger.isEnabledFor(logging.DEBUG):\n        
 _ARMS = "                if task_name == '__size__':\n" + _SZ_ARM + "                else:\n" + _IN_ARM
 _REARM = "                unfinished.add(asyncio.create_task(port.get(posixpath.join(self.name, task_name)), name=task_name))"
 
+# the text between the initial tasks and the arrival arms, and the arms without their per-branch `port = ...`
+_HEAD = ("    keys_completed = set()\n    status = Status.SKIPPED\n    while tasks:\n"
+         "        finished, unfinished = await asyncio.wait(tasks, return_when=asyncio.FIRST_COMPLETED)\n        for task in finished:\n"
+         "            if task.cancelled():\n                continue\n            task_name = task.get_name()\n            token = task.result()\n"
+         "            if check_termination(token):\n                status = _reduce_statuses([status, token.value])\n"
+         "                if logger.isEnabledFor(logging.DEBUG):\n"
+         "                    logger.debug(f'Step {self.name} received termination token on port {task_name}')\n            else:\n")
+_ARMS_NOPORT = _ARMS.replace("                    port = size_port\n", "").replace("                    port = input_port\n", "")
+_REARM_TABLE = _REARM.replace("port.get(", "ports_by_task[task_name].get(")
+
+
+def _table_variant(table: str, rearm: str = _REARM_TABLE) -> str:
+    """GatherStep.run with the per-branch `port = ...` replaced by a lookup table built before the loop (benign B12-3)."""
+    return "    ports_by_task = " + table + "\n" + _HEAD + _ARMS_NOPORT + rearm
+
 
 def _dedent4(t: str) -> str:
     return "".join(line[4:] + "\n" for line in t.splitlines())
@@ -1545,6 +1646,19 @@ VARIANTS = [
     V("run: in-loop completed filter lets only the gathered keys through (negated spelling)", SFILE, _R,
       "        for key in (k for k in self.token_map.keys() if k not in keys_completed):\n",
       "        for key in list(self.token_map):\n            if not key in keys_completed:\n                continue\n", "R4"),
+    V("run: port lookup table pairs each task name with the other port", SFILE, _R, _HEAD + _ARMS + _REARM,
+      _table_variant("{'__size__': input_port, port_name: size_port}"), "R4"),
+    V("run: port lookup table maps both task names to the element port", SFILE, _R, _HEAD + _ARMS + _REARM,
+      _table_variant("{'__size__': input_port, port_name: input_port}"), "R4"),
+    V("run: port lookup table has no entry for the size task", SFILE, _R, _HEAD + _ARMS + _REARM,
+      _table_variant("{port_name: input_port}"), "R4"),
+    V("run: port lookup table indexed by the element port's name instead of the consumed task's", SFILE, _R, _HEAD + _ARMS + _REARM,
+      _table_variant("{'__size__': size_port, port_name: input_port}", _REARM.replace("port.get(", "ports_by_task[port_name].get(")), "R4"),
+    V("run: port lookup table built in the loop, its size entry holds the element port", SFILE, _R, _REARM,
+      "                ports_by_task = {'__size__': self.get_input_port(), port_name: input_port}\n" + _REARM_TABLE, "R4"),
+    V("run: table-driven re-arm only in the size arm (the element port is read once)", SFILE, _R, _HEAD + _ARMS + _REARM,
+      "    ports_by_task = {'__size__': size_port, port_name: input_port}\n" + _HEAD
+      + _ARMS_NOPORT.replace("                else:\n", "    " + _REARM_TABLE + "\n                else:\n", 1), "R4"),
     # ---- R5
     V("run: size/element reader re-armed under the element port's consumer id (round-2 seeded change)", SFILE, _R,
       "port.get(posixpath.join(self.name, task_name)), name=task_name", "port.get(posixpath.join(self.name, port_name)), name=task_name", "R5", control=True),
@@ -1623,6 +1737,11 @@ VARIANTS = [
       "        for key in (k for k in self.token_map.keys() if k not in keys_completed):\n",
       "        for key in list(self.token_map):\n            if not key not in keys_completed:\n                continue\n", None),
     V("benign: run re-arms through the name-keyed accessor", SFILE, _R, "port.get(posixpath.join(self.name, task_name))", "self.get_input_port(task_name).get(posixpath.join(self.name, task_name))", None),
+    V("benign: run looks the re-armed port up in a table keyed by the task name (B12-3)", SFILE, _R, _HEAD + _ARMS + _REARM,
+      _table_variant("{'__size__': size_port, port_name: input_port}"), None),
+    V("benign: run builds the port table in the loop from the accessors, entries in the other order, .get lookup", SFILE, _R, _REARM,
+      "                ports_by_task = {self._get_input_port_name(): self.get_input_port(), '__size__': self.get_size_port()}\n"
+      + _REARM.replace("port.get(", "ports_by_task.get(task.get_name()).get("), None),
     V("benign: run logging and reordered independent statements", SFILE, _R,
       "                    self.size_map[token.tag] = token\n                    port = size_port",
       "                    port = size_port\n                    logger.debug('size')\n                    self.size_map[token.tag] = token", None),
